@@ -784,24 +784,39 @@ impl TypeInfo {
             ));
         }
         let ftype = self.function_to_functype(fdecl)?;
-        if self
-            .func_types
-            .insert(fdecl.name.clone(), Arc::new(ftype))
-            .is_some()
-        {
+        // Reject duplicates before touching `func_types`, so the existing
+        // signature is not replaced by the rejected declaration.
+        if self.func_types.contains_key(&fdecl.name) {
             return Err(TypeError::FunctionAlreadyBound(
                 fdecl.name.clone(),
                 fdecl.span.clone(),
             ));
         }
-        let mut bound_vars = IndexMap::default();
-        let output_type = self.sorts.get(&fdecl.schema.output).unwrap();
+        let output_type = self.sorts.get(&fdecl.schema.output).unwrap().clone();
         if fdecl.subtype == FunctionSubtype::Constructor && !output_type.is_eq_sort() {
             return Err(TypeError::ConstructorOutputNotSort(
                 fdecl.name.clone(),
                 fdecl.span.clone(),
             ));
         }
+        // The merge expression may refer to the function itself, so the
+        // signature has to be visible while it is checked; take it back out if
+        // the declaration turns out to be ill-typed.
+        self.func_types.insert(fdecl.name.clone(), Arc::new(ftype));
+        let resolved = self.typecheck_function_body(symbol_gen, fdecl, output_type);
+        if resolved.is_err() {
+            self.func_types.remove(&fdecl.name);
+        }
+        resolved
+    }
+
+    fn typecheck_function_body(
+        &mut self,
+        symbol_gen: &mut SymbolGen,
+        fdecl: &FunctionDecl,
+        output_type: ArcSort,
+    ) -> Result<ResolvedFunctionDecl, TypeError> {
+        let mut bound_vars = IndexMap::default();
         bound_vars.insert("old", (fdecl.span.clone(), output_type.clone()));
         bound_vars.insert("new", (fdecl.span.clone(), output_type.clone()));
 
